@@ -187,6 +187,9 @@ def prefilter(m, repo, target, jobs):
     if "error" in out and "could not compile" in out:
         return "stillborn"
     rc, out = sh(f"cargo nextest run -j{jobs} --workspace --no-fail-fast --offline 2>&1 | tail -3", cwd=repo, env={"CARGO_TARGET_DIR": target, "CARGO_BUILD_JOBS": str(jobs)}, timeout=300)
+    # nextest runs every test in a process group of its own: a mutant that loops forever survives
+    # the kill of our group, so whatever still runs from this target directory is removed by name
+    sh(f"pkill -9 -f '{target}/debug/deps/' ; true")
     if not ("85 passed" in out and "failed" not in out and "timed out" not in out):
         return "killed-by-suite"
     return "passes-suite"
